@@ -5,7 +5,7 @@
    Remove, Add, AddAttr, AddRel, SetType mirror soft_collection.go; reading an
    element is SoftResource's Get (C17). *)
 From JV Require Import Model.Base Model.GoTime Gen.TypeGo Model.Schema Model.Value
-  Model.SoftRes Model.Resource Model.SoftColl Proofs.SoftFacts Proofs.C19Facts.
+  Model.SoftRes Model.Resource Model.SoftColl Proofs.SoftFacts Proofs.C19Facts Proofs.C19Values.
 
 (* Len and At agree with the list; an out-of-range At is nil *)
 Theorem C19_len : forall c, sc_len c = Z.of_nat (length (ids_of_coll c)).
@@ -64,8 +64,37 @@ Theorem C19_later_field_zero : forall c it f,
 Proof. exact stored_missing_field_zero. Qed.
 Print Assumptions C19_later_field_zero.
 
-(* NOT PROVED here (correspondence + oracle): that Add stores exactly the
-   well-typed field values of the resource (the Set calls of Add are those of
-   C17), and snapshot semantics w.r.t. later Set calls on the source (values
-   are immutable in this model; the Go side re-reads the snapshot after
-   mutating the source). *)
+(* Add stores the attribute values of the resource it is given: for a resource
+   whose attributes fit the collection's type ([pending_ok]: distinct names,
+   each either already defined identically in the type or not a field of it,
+   a value of the declared Go type or nil for a nullable one) the appended
+   element carries the resource's ID, the type afterwards defines every such
+   attribute, and the element reads the value -- the zero value for nil. *)
+Theorem C19_add_stores_values : forall c src id,
+  wf_res_type (sc_type c) ->
+  res_get src "id" = Ok (VStr id) ->
+  pending_ok src (sc_type c) (res_attrs src) ->
+  (forall s1, add_attrs src (mkSoft (sc_type c) id []) (res_attrs src) = Ok s1 ->
+              pending_rels_ok src (s_type s1) (res_rels src) /\
+              forall kv kr, In kv (res_attrs src) -> In kr (res_rels src) -> aname (snd kv) <> from_name (snd kr)) ->
+  exists c' data,
+    sc_add c src = Ok c' /\ sc_items c' = (sc_items c ++ [(id, data)])%list /\
+    forall kv v, In kv (res_attrs src) -> res_get src (aname (snd kv)) = Ok v ->
+      lookup (aname (snd kv)) (tattrs (sc_type c')) = Some (snd kv) /\
+      soft_get (item_soft c' (id, data)) (aname (snd kv)) = kept (snd kv) v.
+Proof. exact sc_add_stores_values. Qed.
+Print Assumptions C19_add_stores_values.
+
+(* NOT PROVED here (correspondence + oracle): the stored relationship values,
+   and snapshot semantics w.r.t. later Set calls on the source (values are
+   immutable in this model; the Go side re-reads the snapshot after mutating
+   the source). *)
+
+(* the hypotheses of C19_add_stores_values are satisfiable *)
+Example c19_add_premises :
+  wf_res_type (sc_type ex19_coll) /\ res_get ex19_src "id" = Ok (VStr "7") /\
+  pending_ok ex19_src (sc_type ex19_coll) (res_attrs ex19_src) /\
+  (forall s1, add_attrs ex19_src (mkSoft (sc_type ex19_coll) "7" []) (res_attrs ex19_src) = Ok s1 ->
+              pending_rels_ok ex19_src (s_type s1) (res_rels ex19_src) /\
+              forall kv kr, In kv (res_attrs ex19_src) -> In kr (res_rels ex19_src) -> aname (snd kv) <> from_name (snd kr)).
+Proof. exact ex19_premises. Qed.
